@@ -1,7 +1,7 @@
 #!/bin/bash
 # run every check once (quick by default); prints one summary line per property
 tier=${1:-quick}
-cd /verif
+cd "$(dirname "$0")"
 for i in $(seq -w 1 19); do
   p=C$i
   s=$(date +%s)
